@@ -816,20 +816,28 @@ def c16_files(seed, tier):
                 if not mode.startswith("verify-mismatch"):
                     R.case("cli-clone-files %s" % mode, "output=%s others=%d" % (intents, len(others)))
                 os.unlink(log)
-            # compress: exactly one new file, temp created then removed
-            for mode in ("file-input", "stdin-input", "force"):
-                sub = os.path.join(W.dir, "c%d_%s" % (i, mode))
-                os.makedirs(sub)
-                outp = os.path.join(sub, "out.cba")
+            # compress: exactly one new file, temp created then removed - also for an empty source and
+            # for output names whose temp name `Path::with_extension` derives differently
+            names = ["out.cba", "archive", "a.b.c", ".hidden", "x.tar.gz", "d.ir/out", ".h.x", "trail."]
+            cmodes = [("file-input", "out.cba"), ("stdin-input", "out.cba"), ("force", "out.cba"),
+                      ("empty-file-input", "out.cba"), ("empty-stdin", names[(i + 1) % len(names)]),
+                      ("file-input", names[(2 * i + 1) % len(names)]), ("force", names[(2 * i + 2) % len(names)]),
+                      ("empty-file-input", names[(2 * i + 3) % len(names)])]
+            for j, (mode, oname) in enumerate(cmodes):
+                sub = os.path.join(W.dir, "c%d_%d_%s" % (i, j, mode))
+                os.makedirs(os.path.join(sub, os.path.dirname(oname)))
+                outp = os.path.join(sub, oname)
                 if mode == "force":
                     open(outp, "wb").write(b"old")
-                before = set(os.listdir(sub))
-                log = os.path.join(W.dir, "strace_c%d_%s.log" % (i, mode))
+                listing = lambda: set(os.path.relpath(os.path.join(dp, f), sub) for dp, _, fs_ in os.walk(sub) for f in fs_)
+                before = listing()
+                log = os.path.join(W.dir, "strace_c%d_%d.log" % (i, j))
                 args = ["compress"] + SMALL_CFGS[i % len(SMALL_CFGS)][0] + ["--compression", "none"]
-                inp = W.write(src, ".src")
+                data = b"" if mode.startswith("empty") else src
+                inp = W.write(data, ".src")
                 stdin_data = None
-                if mode == "stdin-input":
-                    stdin_data = src
+                if mode.endswith("stdin-input") or mode == "empty-stdin":
+                    stdin_data = data
                 else:
                     args += ["-i", inp]
                 if mode == "force":
@@ -838,23 +846,30 @@ def c16_files(seed, tier):
                 cls, rc, so, se = run_bita(args, stdin_data=stdin_data, strace_log=log)
                 ev = parse_strace(log)
                 tp = _interesting(touched_paths(ev), W.dir)
-                tmp = os.path.join(sub, "out..tmp")
-                req = "cli-compress-files mode=%s" % mode
+                # the documented temp name, derived independently of the model: the last extension of the
+                # file name (a leading dot does not start an extension) replaced by ".tmp" after a dot
+                base = os.path.basename(oname)
+                k = base.rfind(".")
+                stem = base[:k] if k > 0 else base
+                tmp = os.path.join(os.path.dirname(outp), stem + "..tmp")
+                req = "cli-compress-files mode=%s output=%s" % (mode, oname)
                 R.stat("compress_modes")
+                R.stat("compress_" + ("empty_source" if mode.startswith("empty") else "nonempty_source"))
                 if cls != "ok":
                     R.fail("compress-%s" % cls, req)
-                after = set(os.listdir(sub))
-                if after - before - {"out.cba"} or "out.cba" not in after:
+                after = listing()
+                if after - before - {oname} or oname not in after:
                     R.fail("compress-did-not-leave-exactly-the-archive", req + " :: " + repr(sorted(after)))
                 others = {p: sorted(v) for p, v in tp.items() if p not in (outp, tmp)}
                 if others:
                     R.fail("compress-touched-unexpected-files", req + " :: " + repr(others)[:300])
                 if "unlink" not in " ".join(tp.get(tmp, [])):
                     R.fail("temp-file-not-removed", req + " :: " + repr(sorted(tp.get(tmp, []))))
-                R.case("cli-compress-files %s" % ("force" if mode == "force" else "plain"),
-                       "output=%s temp=%s others=%d tmpname=%s" % (
+                R.case("cli-compress-files %s %s" % ("force" if mode == "force" else "empty" if mode.startswith("empty") else "plain", oname),
+                       "output=%s temp=%s others=%d tmpname=%s left=%d" % (
                            ";".join(sorted(tp.get(outp, []))), ";".join(sorted(tp.get(tmp, []))), len(others),
-                           ",".join(sorted(os.path.basename(q) for q, v in tp.items() if any(x.startswith("unlink") for x in v))) or "-"))
+                           ",".join(sorted(os.path.basename(q) for q, v in tp.items() if any(x.startswith("unlink") for x in v))) or "-",
+                           len(after - before - {oname})))
                 os.unlink(log)
     finally:
         W.close()
@@ -1362,15 +1377,33 @@ def c11_conformance(seed, tier):
             for j in range(rng.randrange(0, 4)):
                 md[rng.choice(["", "a", "key%d" % j, "ключ", "k k"])] = rng.choice(["", "v", "binÿ", "x" * 300])
             writer = "cli" if i % 3 else "lib"
+            if i % 4 == 1:
+                # duplicates at the tail: the last chunks repeat earlier ones (fixed blocks; a zero-filled tail)
+                if i % 8 == 1:
+                    bs = rng.choice([64, 100, 1000])
+                    blocks = [rng.randbytes(bs) for _ in range(3)]
+                    src = b"".join(blocks) + b"".join(rng.choice(blocks) for _ in range(rng.randrange(1, 4)))
+                    if rng.random() < 0.5:
+                        src += rng.choice(blocks)[:rng.randrange(1, bs)]
+                    cfg_args, cfg_tok = ["--fixed-size", str(bs)], "F:%d" % bs
+                else:
+                    src = src[:2000] + bytes(rng.randrange(3000, 9000))
+                R.stat("sources_with_duplicate_tail_chunks")
             if writer == "cli":
                 outp = W.fresh(".cba")
+                if i % 6 == 4:
+                    # --force-create over an existing, longer file: the archive must still end at its last chunk
+                    with open(outp, "wb") as f:
+                        f.write(rng.randbytes(len(src) * 2 + 70000))
+                    R.stat("force_over_longer_existing_output")
                 if i % 2 == 0:
                     # a stale temp file, longer than anything this run stores (left by an interrupted compress)
                     with open(os.path.splitext(outp)[0] + "..tmp", "wb") as f:
                         f.write(rng.randbytes(len(src) + 5000))
                     R.stat("with_stale_temp_file")
                 cls, arch, se, apath = compress_cli(W, src, cfg_args, hash_len, compression, level, rng.choice([1, 3, 16]), list(md.items()),
-                                                    via_stdin=rng.random() < 0.3, out=outp)
+                                                    via_stdin=rng.random() < 0.3, out=outp,
+                                                    extra=["--force-create"] if i % 6 == 4 else None)
                 if os.path.exists(os.path.splitext(outp)[0] + "..tmp"):
                     R.fail("temp-file-left-behind", "cli-compress (stale temp scenario) src=%s" % digest(src))
             else:
